@@ -417,7 +417,10 @@ class SimNet:
         entry['outcome'] = 'connected'
         entry['conn'] = conn.id
         if plan.connect == 'reset':
-            self.loop.call_later(0.0005, self._apply_cut, conn, 'a2b', 'rst')
+            # established, then reset before the dialer gets to write: its first write / drain fails
+            conn.cut_done = True
+            conn.a._conn_lost(ConnectionResetError(104, 'Connection reset by peer'))
+            self.loop.call_later(self.rst_latency, conn.b._conn_lost, ConnectionResetError(104, 'Connection reset by peer'))
         return conn.a.reader, conn.a.writer
 
     def _make_conn(self, node: str, lst: SimListener, host, port, plan: ConnPlan) -> SimConn:
